@@ -304,6 +304,11 @@ let dispatch (req : Sexp.t) : Sexp.t =
       | "compat_named", [r; t] -> put_bool (compat_named (get_bytes r) (get_bytes t))
       | "rdef_keys", [n] -> put_list (fun (k, b) -> L [put_bytes k; put_bool b]) (rdef_keys (get_bytes n))
       | "compat_expect", [n] -> put_opt put_bool (compat_expect (get_bytes n))
+      | "compound", [i; s; r; styles] ->
+        let sts = (match styles with L [] -> gen_all_styles | x -> get_list get_style x) in
+        put_list (fun m -> L [put_bytes m.cm_full; put_bytes m.cm_repl; put_style m.cm_style; put_nat m.cm_start; put_nat m.cm_end])
+          (find_compound_variants (get_bytes i) (get_bytes s) (get_bytes r) sts)
+      | "compatible_styles", [t; styles] -> put_list put_style (compatible_styles (get_bytes t) (get_list get_style styles))
       | "clap_accepts", [argv] -> put_pres (clap_accepts (get_list get_bytes argv))
       | "wrapper_names", [] ->
         put_list (fun ((n, _), fs) -> L [put_bytes n; put_int (List.length (all_opts fs))]) gen_builders
